@@ -228,7 +228,16 @@ def rule_backend_namespace(ctx, r):
     # use sites
     sl = idx.cls("gwf.backends.slurm:SlurmOps")
     cs = idx.method(sl, "compile_script")
-    r.check("self.log_mode ==" in ast.unparse(cs.node), f"{cs.module.relpath}::{cs.qual}::log_mode", "log_mode selects the log directives", "log_mode is not used by the Slurm script builder", cs.where)
+    from .c10 import compile_script as _compile
+    scripts = {}
+    for mode in ("full", "merged", "none"):
+        try:
+            scripts[mode] = _compile(ctx, "gwf.backends.slurm", "SlurmOps", {}, log_mode=mode)[1]
+        except (Raised, Unsupported) as exc:
+            scripts[mode] = f"<{exc}>"
+    r.check(len(set(scripts.values())) == 3 and not any(str(v).startswith("<") for v in scripts.values()), f"{cs.module.relpath}::{cs.qual}::log_mode",
+            "the configured log mode (full / merged / none) selects three different sets of log directives",
+            f"the Slurm script does not depend on the configured log mode as documented (distinct scripts for full/merged/none: {len(set(scripts.values()))})", cs.where)
     gj = idx.method(sl, "get_job_states")
     from .evalhelpers import eval_slurm_states
     _r1, e_on, q_on, _s1, _m1 = eval_slurm_states(ctx, 5, True)
@@ -238,16 +247,29 @@ def rule_backend_namespace(ctx, r):
             "sacct is run iff accounting_enabled (also when the queue query fails)",
             f"accounting switch on -> {len(q_on)} sacct call(s), off -> {len(q_off)}, off with a failing squeue -> {len(q_off_fail)} (errors: {e_on}, {e_off}): "
             "the configured switch must alone decide whether the accounting database is consulted", gj.where)
+    # the local backend connects to the configured host and port (evaluated: LocalOps' client default -> Client.connect -> socket.connect)
     lo = idx.cls("gwf.backends.local:LocalOps")
-    cc = None
-    for m in lo.methods.values():
-        for c in _calls(m.node):
-            if isinstance(c.func, ast.Attribute) and c.func.attr == "connect" and [ast.unparse(a) for a in c.args] == ["self.host", "self.port"]:
-                cc = m
-    r.check(cc is not None, f"{lo.module.relpath}::LocalOps::connect", "Client.connect(self.host, self.port)", "the local backend does not connect to the configured host and port", lo.where)
-    conn = idx.func("gwf.backends.local:Client.connect")
-    t = ast.unparse(conn.node)
-    r.check("sock.connect((hostname, port))" in t, f"{conn.module.relpath}::{conn.qual}", "connects to (hostname, port)", "Client.connect ignores its host/port arguments", conn.where)
+    cl = idx.cls("gwf.backends.local:Client")
+    seen = []
+    sock = Obj("sock", connect=lambda addr=None, *a, **k: seen.append(("socket.connect", addr)), makefile=lambda *a, **k: Obj("stream"), close=lambda: None,
+               settimeout=lambda *a: None, setsockopt=lambda *a: None)
+    hooks = {"socket.socket": lambda *a, **k: sock, "socket.create_connection": lambda addr, *a, **k: (seen.append(("socket.connect", tuple(addr))), sock)[1],
+             "time.sleep": lambda *a: None}
+    interp = PureInterp(ctx, hooks=hooks)
+    interp.max_depth = 8
+    ops = Obj("ops", working_dir=tok("PROJ"), host="HOSTNAME", port=4711, target_defaults={}, **{"__class__": lo})
+    res_ = None
+    try:
+        for m in lo.methods.values():
+            if any((d or "").endswith("_client.default") for d in m.decorator_names()):
+                res_ = interp.call(m, (), {}, self_obj=ops)
+        post = idx.method(lo, "__attrs_post_init__")
+        if post is not None:
+            interp.call(post, (), {}, self_obj=ops)
+    except (Raised, Unsupported) as exc:
+        seen.append(("error", f"{type(exc).__name__}: {exc}"))
+    r.check(("socket.connect", ("HOSTNAME", 4711)) in seen, f"{lo.module.relpath}::LocalOps::connect", "the pool client connects to (configured host, configured port)",
+            f"with host=HOSTNAME and port=4711 configured the local backend connects as {seen}: the configured address does not reach the socket", lo.where)
 
 
 def run(ctx):
